@@ -74,6 +74,12 @@ func (k Keeper) DistributeReward(ctx context.Context) error {
 		return nil
 	}
 
+	// the first block of a chain restarted from an exported state has an initial height
+	// above 1 and, like every first block, carries no last commit: nothing to distribute
+	if len(sdkctx.VoteInfos()) == 0 {
+		return nil
+	}
+
 	pool, err := k.RewardPool.Get(sdkctx)
 	if err != nil {
 		return err
